@@ -19,6 +19,7 @@ RULES = [
     Rule('C17.R3', 'MUS division and tempo give 140 Hz within 2.5 %', 1),
     Rule('C17.R4', 'XMI delta/duration/tempo scale with one constant; division = tempo*3/25000; per-song division', 4),
     Rule('C17.R5', 'XMI event list: a new event is inserted after the events already queued for its tick (stable order)', 1),
+    Rule('C17.R6', 'every load starts from the plain-MIDI format; variable-length encoders continue exactly while 7-bit groups remain', 3),
 ]
 EXPLANATION = ('Constant/table extraction from the AST of the converters and of BW_MidiSequencer::parseRMI, compared with the governing format tables encoded in the '
                'checker (DMX controller numbers, 140 Hz, 120 Hz). Thin claim: necessary conditions of fidelity; the converted event sequence is not decided.')
@@ -184,6 +185,7 @@ def analyse(facts, tier):
     perc_t = facts.fn('xmi2mid_ExtractTracks', required=False)
     obls.append(Obl('C17.R4', cl.name, 'tempo is taken once per sequence', cl.loc, 'discharged' if 'tempo' in ks else 'finding', why='first tempo event sets the division; later ones are skipped'))
     obls += r5_stable(facts)
+    obls += r6_format_and_vlq(facts)
     return obls
 
 
@@ -224,4 +226,65 @@ def r5_stable(facts):
                            'a new event overtakes the events already queued for its tick: the end-of-track meta lands before a note-off of the same tick, which the track writer then drops'))
     if n < 1:
         raise build.AnalysisBroken('C17.R5: the sorted insertion of xmi2mid_CreateNewEvent was not recognised')
+    return out
+
+
+
+def r6_format_and_vlq(facts):
+    """(a) m_format selects the controller dialect in parseEvent (XMI loop controllers, CMF controllers): loadMIDI resets it to Format_MIDI
+    before it dispatches to a parser, or every parser sets it itself — a re-used player must not parse a plain SMF as the format of the
+    previous file.  (b) the VLQ encoders of the converters emit a continuation byte exactly while value >> 7 is non-zero."""
+    out = []
+    lm = None
+    for f in facts.fns.get(SEQ + '::loadMIDI', []):
+        if any(short(callee_name(x)).startswith('parse') for b, ex, loc in f.cfg.exprs() for x in calls_in(ex)):
+            lm = f
+    if lm is None:
+        raise build.AnalysisBroken('C17.R6: loadMIDI dispatcher not found')
+    resets = [(b, j) for b, j, st in lm.cfg.stmts() for x in walk(st['s']) if assign_parts(x) and strip(assign_parts(x)[0]).get('k') == 'MemberExpr' and short(strip(assign_parts(x)[0])['n']) == 'm_format']
+    calls = [(b, j, st, x) for b, j, st in lm.cfg.stmts(conds=True) for x in calls_in(st['s']) if short(callee_name(x)).startswith('parse') and callee_name(x).startswith(SEQ)]
+    for b, j, st, x in calls:
+        dom = any((rb == b and rj < j) or (rb != b and lm.cfg.block_dominates(rb, b)) for rb, rj in resets)
+        own = False
+        for pf in facts.fns.get(callee_name(x), []):
+            own = any(assign_parts(y) and strip(assign_parts(y)[0]).get('k') == 'MemberExpr' and short(strip(assign_parts(y)[0])['n']) == 'm_format'
+                      for b2, j2, st2 in pf.cfg.stmts() for y in walk(st2['s']))
+        ok = dom or own
+        out.append(Obl('C17.R6', lm.name, 'format known before ' + short(callee_name(x)), st['loc'], 'discharged' if ok else 'finding',
+                       why=('m_format reset before the dispatch' if dom else 'the parser sets m_format itself') if ok else
+                       '%s relies on m_format being Format_MIDI, but nothing sets it for this load: after an XMI / CMF / RSXX file the next plain file is parsed with that format\'s controller dialect' % short(callee_name(x))))
+    if len(calls) < 5:
+        raise build.AnalysisBroken('C17.R6: only %d parser calls in loadMIDI' % len(calls))
+    for name in ('mus2mid_writevarlen', 'xmi2mid_PutVLQ'):
+        fn = facts.fn(name, required=False)
+        if fn is None:
+            continue
+        vp = fn.params[0] if name == 'mus2mid_writevarlen' else fn.params[1]
+        found = False
+        for bid, blk in fn.cfg.blocks.items():
+            c = blk.get('cond')
+            if c is None or blk.get('term') not in ('WhileStmt', 'ForStmt', 'DoStmt'):
+                continue
+            if not mentions(c, lambda y: y.get('k') == 'DeclRefExpr' and y.get('id') == vp['id']):
+                continue
+            found = True
+            sc = strip(c)
+            ok = False
+            form = show(c)
+            if sc.get('k') == 'BinaryOperator' and sc['op'] in ('>', '!='):
+                l = strip(sc['l'])
+                shifted = (l.get('k') in ('BinaryOperator', 'CompoundAssignOperator') and l.get('op') in ('>>', '>>=') and const_of(l['r']) == 7 and strip(l['l']).get('id') == vp['id'])
+                if shifted and const_of(sc['r']) == 0:
+                    ok = True
+                if l.get('id') == vp['id'] and sc['op'] == '>' and const_of(sc['r']) == 0x7F:
+                    ok = True
+            if sc.get('k') == 'BinaryOperator' and sc['op'] == '>=' and strip(sc['l']).get('id') == vp['id'] and const_of(sc['r']) == 0x80:
+                ok = True
+            if sc.get('k') in ('BinaryOperator', 'CompoundAssignOperator') and sc.get('op') in ('>>', '>>=') and const_of(sc['r']) == 7:
+                ok = True
+            out.append(Obl('C17.R6', name, 'continuation test ' + form[:40], blk.get('cloc'), 'discharged' if ok else 'finding',
+                           why='continues while value >> 7 != 0' if ok else
+                           'the encoder does not continue exactly while value >> 7 is non-zero: delays on a 7-bit group boundary (128, 16384, ...) are written with the wrong number of bytes'))
+        if not found:
+            raise build.AnalysisBroken('C17.R6: the group loop of %s was not found' % name)
     return out
